@@ -98,7 +98,7 @@ def concurrent_job(job):
     from vlib.vloop import ScriptedPeer, VLoop, World
     transport, keep, shared = job
     acc = Acc()
-    specs = [("read", 35100, 2), ("read", 36000, 5), ("write", 47510, -1)]
+    specs = [("read", 35100, 2), ("read", 36000, 5), ("write", 47510, -1), ("read", 47000, 1)]
     for ntasks in (2, 3, 4):
         for offsets in ((0, 0, 0, 0), (0, 1, 2, 3), (0, 5, 5, 40)):
             for script in ([], [["drop"], ["answer", 2]], [["answer", 15], ["drop"], ["drop"], ["answer", 1]]):
@@ -153,6 +153,24 @@ def concurrent_job(job):
                                  "transmission %r" % (i, ntasks, tx, prev), case)
                         break
                     prev = tx
+                else:
+                    # every caller ends with the first valid in-time answer to ITS operation, so the peer can never have
+                    # validly answered an operation more often than there are callers who wanted it: if it did, some
+                    # transmission carried another caller's operation instead of the one its own caller intended
+                    from collections import Counter
+                    acts = netcase.to_actions(script, 1.0)
+                    answered = Counter()
+                    for i, (t, tid, data, failed) in enumerate(world.tx):
+                        act = acts[i] if i < len(acts) else ("answer", 3 / 16.0)
+                        if act[0] == "answer" and not failed:
+                            answered[repr(sorted((rw.parse_tcp_request(data)[1] if transport == "tcp" else rw.parse_rtu_request(data)).items()))] += 1
+                    need = Counter(repr(sorted(w.items())) for w in wanted)
+                    for op, n in answered.items():
+                        if n > need[op]:
+                            acc.fail("C03|e2e|%s|concurrent|operation-sent-for-another-caller" % transport,
+                                     "the peer validly answered %r %d times, only %d caller(s) asked for it: a transmission made for "
+                                     "another caller carried this operation" % (op, n, need[op]), case)
+                            break
     return acc
 
 
